@@ -148,7 +148,7 @@ func C14(c *core.Ctx) {
 			c.Viol("R14.1", "component-"+fnm+"-value-criterion", p.Pos(fn.Pos()), fmt.Sprintf("Component.%s must end in exactly one bytes.%s of the two values (found %d): the value bytes do not take part in the decision", fnm, prim, len(finals)))
 		} else {
 			for _, a := range []*core.Atom{typEq, lenEq} {
-				g := core.Gate(fn, finals, pos(a))
+				g := core.GateDeep(fn, finals, pos(a))
 				c.Decide(g.OK && g.PassEdges > 0, "R14.1", "component-"+fnm+"-criterion:"+a.Name, p.Pos(fn.Pos()), "the byte comparison is reached only on the edge asserting "+a.Name, "Component."+fnm+" reaches the byte comparison without "+a.Name+" having been established: the "+strings.Split(a.Name, "=")[0]+" criterion is missing, so names that differ only in it compare equal/ordered by bytes alone")
 			}
 		}
@@ -166,7 +166,7 @@ func C14(c *core.Ctx) {
 				}
 			})
 			// +1 is never returned on a path that asserted lhs < rhs in type or length
-			g := core.Gate(fn, pos1, neg(typLt), neg(lenLt))
+			g := core.GateDeep(fn, pos1, neg(typLt), neg(lenLt))
 			okPos := len(pos1) > 0 && g.OK && g.PerLit[0] > 0 && g.PerLit[1] > 0
 			// -1: either a 'smaller' test held, or rhs is not a Component (pattern)
 			notComp := &core.Atom{Name: "rhs-is-component", Match: func(cond ssa.Value) (int, int) {
@@ -177,7 +177,7 @@ func C14(c *core.Ctx) {
 				}
 				return 0, 0
 			}}
-			g2 := core.Gate(fn, neg1, pos(typLt), pos(lenLt), neg(notComp))
+			g2 := core.GateDeep(fn, neg1, pos(typLt), pos(lenLt), neg(notComp))
 			okNeg := len(neg1) > 0 && g2.OK && g2.PerLit[0] > 0 && g2.PerLit[1] > 0
 			c.Decide(okPos && okNeg, "R14.1", "component-Compare-sign", p.Pos(fn.Pos()), "-1 only under 'lhs smaller' (or non-component rhs), +1 only when no 'lhs smaller' test held", "Component.Compare returns the wrong sign for a type or length difference (canonical order reversed for that criterion)")
 			// the type criterion is decided before the length criterion
@@ -201,7 +201,7 @@ func C14(c *core.Ctx) {
 		n, rhs := ssa.Value(fn.Params[0]), ssa.Value(fn.Params[1])
 		// component-wise call with the same index on both sides
 		var calls []ssa.CallInstruction
-		calls = core.FindCalls(fn, core.CalleeID{Pkg: "std/encoding", Recv: "Component", Name: map[string]string{"Compare": "Compare", "Equal": "Equal", "IsPrefix": "Equal"}[fnm]})
+		calls = core.FindCallsDeep(fn, core.CalleeID{Pkg: "std/encoding", Recv: "Component", Name: map[string]string{"Compare": "Compare", "Equal": "Equal", "IsPrefix": "Equal"}[fnm]})
 		okIdx := len(calls) == 1
 		if okIdx {
 			recv, a := core.CallArgs(calls[0].Common())
@@ -256,8 +256,8 @@ func C14(c *core.Ctx) {
 			})
 			lt := lenCmp("len(n)<len(rhs)", map[token.Token]int{token.LSS: 1, token.GEQ: -1})
 			gt := lenCmp("len(n)>len(rhs)", map[token.Token]int{token.GTR: 1, token.LEQ: -1})
-			g1 := core.Gate(fn, neg1, pos(lt))
-			g2 := core.Gate(fn, pos1, pos(gt))
+			g1 := core.GateDeep(fn, neg1, pos(lt))
+			g2 := core.GateDeep(fn, pos1, pos(gt))
 			c.Decide(len(neg1) > 0 && len(pos1) > 0 && g1.OK && g1.PassEdges > 0 && g2.OK && g2.PassEdges > 0, "R14.1", "name-Compare-length-tiebreak", p.Pos(fn.Pos()), "-1 only under len(n)<len(rhs), +1 only under len(n)>len(rhs): a proper prefix sorts first", "Name.Compare breaks ties between a name and its proper prefix with the wrong sign")
 			// first difference decides: the component result is returned when non-zero
 			nonzero := &core.Atom{Name: "component-result!=0", Match: func(cond ssa.Value) (int, int) {
@@ -269,12 +269,12 @@ func C14(c *core.Ctx) {
 				}
 				return 0, 0
 			}}
-			g3 := core.Gate(fn, nz, pos(nonzero))
+			g3 := core.GateDeep(fn, nz, pos(nonzero))
 			okFirst := len(nz) > 0 && g3.OK && g3.PassEdges > 0
 			// and the loop continues only on result == 0
 			for _, f := range core.EdgeFacts(fn, nonzero) {
 				if f.Holds {
-					if fr := core.MustFollow(fn, core.Point{Block: f.E.To, Idx: 0}, func(in ssa.Instruction) bool {
+					if fr := core.MustFollowDeep(fn, core.Point{Block: f.E.To, Idx: 0}, func(in ssa.Instruction) bool {
 						r, ok := in.(*ssa.Return)
 						return ok && core.Strip(r.Results[0]) == call.Value()
 					}, nil); !fr.OK {
@@ -298,7 +298,7 @@ func C14(c *core.Ctx) {
 			} else {
 				la = lenCmp("len(n)<=len(rhs)", map[token.Token]int{token.LEQ: 1, token.GTR: -1})
 			}
-			g := core.Gate(fn, trues, pos(la))
+			g := core.GateDeep(fn, trues, pos(la))
 			c.Decide(len(trues) > 0 && g.OK && g.PassEdges > 0, "R14.1", "name-"+fnm+"-length-criterion", p.Pos(fn.Pos()), "true only under "+la.Name, "Name."+fnm+" can return true without "+la.Name)
 			// per-iteration: the loop continues only on Equal()==true
 			eq := &core.Atom{Name: "components-equal", Match: func(cond ssa.Value) (int, int) {
@@ -345,19 +345,19 @@ func C14(c *core.Ctx) {
 		ok := len(writes) == 2
 		if ok {
 			// first write: 8-byte buffer filled by PutUint64(uint64(c.Typ)); second: c.Val
-			put := core.FindCalls(hi, core.CalleeID{Pkg: "encoding/binary", Recv: "bigEndian", Name: "PutUint64"})
+			put := core.FindCallsDeep(hi, core.CalleeID{Pkg: "encoding/binary", Recv: "bigEndian", Name: "PutUint64"})
 			okPut := false
 			for _, pc := range put {
 				_, a := core.CallArgs(pc.Common())
 				if len(a) == 2 {
 					if _, path := core.FieldPath(core.StripConv(a[1])); len(path) > 0 && path[len(path)-1] == "Typ" {
-						okPut = core.Precedes(hi, writes[0], func(in ssa.Instruction) bool { return in == ssa.Instruction(pc) })
+						okPut = core.PrecedesDeep(hi, writes[0], func(in ssa.Instruction) bool { return in == ssa.Instruction(pc) })
 					}
 				}
 			}
 			_, path := core.FieldPath(writes[1].Common().Args[0])
 			okVal := len(path) > 0 && path[len(path)-1] == "Val"
-			ok = okPut && okVal && core.Precedes(hi, writes[1], func(in ssa.Instruction) bool { return in == ssa.Instruction(writes[0]) })
+			ok = okPut && okVal && core.PrecedesDeep(hi, writes[1], func(in ssa.Instruction) bool { return in == ssa.Instruction(writes[0]) })
 		}
 		c.Decide(ok, "R14.1", "hash-feeds-type-then-value", p.Pos(hi.Pos()), "HashInto writes the 8-byte big-endian type, then the value", "Component.HashInto does not feed the 8-byte type followed by the value bytes: equal names may hash differently or different types collide systematically")
 	}
@@ -368,7 +368,7 @@ func C14(c *core.Ctx) {
 		}
 		n := ssa.Value(fn.Params[0])
 		var feed ssa.CallInstruction
-		for _, ci := range core.FindCalls(fn, core.CalleeID{Pkg: "std/encoding", Recv: "Component", Name: "HashInto"}) {
+		for _, ci := range core.FindCallsDeep(fn, core.CalleeID{Pkg: "std/encoding", Recv: "Component", Name: "HashInto"}) {
 			recv, _ := core.CallArgs(ci.Common())
 			if elemIndexOf(recv, n) != nil {
 				feed = ci
@@ -384,7 +384,7 @@ func C14(c *core.Ctx) {
 		if ok {
 			h := loopHeader(feed.Block())
 			ok = h != nil && everyIterationPasses(fn, h, func(in ssa.Instruction) bool { return in == ssa.Instruction(feed) })
-			ok = ok && len(resets) == 1 && !core.InLoop(resets[0].Block()) && core.Precedes(fn, feed, func(in ssa.Instruction) bool { return in == resets[0] })
+			ok = ok && len(resets) == 1 && !core.InLoop(resets[0].Block()) && core.PrecedesDeep(fn, feed, func(in ssa.Instruction) bool { return in == resets[0] })
 		}
 		c.Decide(ok, "R14.1", "name-"+fnm+"-feeds-every-component", p.Pos(fn.Pos()), "one Reset, then HashInto of every component in order", "Name."+fnm+" does not reset once and then feed every component: the hash is not a function of the name (or of the prefix)")
 		if fnm == "PrefixHash" && ok {
@@ -406,7 +406,7 @@ func C14(c *core.Ctx) {
 				nStore++
 				if core.InLoop(st.Block()) {
 					// after the feed of this iteration, index = i+1
-					if !core.Precedes(fn, st, func(x ssa.Instruction) bool { return x == ssa.Instruction(feed) }) {
+					if !core.PrecedesDeep(fn, st, func(x ssa.Instruction) bool { return x == ssa.Instruction(feed) }) {
 						okStore = false
 					}
 					b, isB := core.StripConv(ia.Index).(*ssa.BinOp)
@@ -519,7 +519,7 @@ func C14(c *core.Ctx) {
 					if kk, ok := core.ConstInt(core.StripConv(s.Index)); ok {
 						k = kk
 					}
-					g := core.Gate(ci.Parent(), []ssa.Instruction{ci}, core.Lit{A: lenGreaterAtom(arg, k), Want: true})
+					g := core.GateDeep(ci.Parent(), []ssa.Instruction{ci}, core.Lit{A: lenGreaterAtom(arg, k), Want: true})
 					if !(g.OK && g.PassEdges > 0) {
 						unguarded = append(unguarded, core.FuncName(ci.Parent()))
 					}
@@ -587,8 +587,8 @@ func C14(c *core.Ctx) {
 			}
 			return 0, 0
 		}}
-		g1 := core.Gate(fn, accepts, neg(hasEq), pos(lo))
-		g2 := core.Gate(fn, accepts, neg(hasEq), pos(hi))
+		g1 := core.GateDeep(fn, accepts, neg(hasEq), pos(lo))
+		g2 := core.GateDeep(fn, accepts, neg(hasEq), pos(hi))
 		c.Decide(len(accepts) > 0 && g1.OK && g1.PerLit[1] > 0 && g2.OK && g2.PerLit[1] > 0, "R14.3", "component-type-range", p.Pos(fn.Pos()), "a typed component is accepted only with 0 < type ≤ 0xffff", "componentFromStrInto accepts a component type outside 1..65535")
 	}
 }
